@@ -300,6 +300,45 @@ def synth_coff(nscns=2, nsyms=3, opthdr=True, seed=0):
     return fh + opt + secs + syms + strtab + blobs
 
 
+def gen_valid(g):
+    """a valid text image of an arbitrary firmware: {"kind": "hex"|"srec", "seed", "size" (bytes of
+    firmware), "reclen", "eol", "style"} -> bytes.  Deterministic, no amoco."""
+    import random as _r
+
+    r = _r.Random(g["seed"])
+    size = g["size"]
+    style = g.get("style", "random")
+    if style == "avr":
+        # interrupt vector table (jmp xx) followed by code-like bytes
+        fw = bytearray()
+        while len(fw) < min(size, 104):
+            fw += bytes([0x0C, 0x94, r.randrange(256), 0x00])
+        fw += bytes(r.randrange(256) for _ in range(max(0, size - len(fw))))
+        fw = bytes(fw[:size])
+    else:
+        fw = bytes(r.randrange(256) for _ in range(size))
+    n = g.get("reclen", 16)
+    eol = g.get("eol", "\n")
+    lines = []
+    if g["kind"] == "hex":
+        for a in range(0, len(fw), n):
+            data = fw[a : a + n]
+            rec = bytes([len(data), (a >> 8) & 0xFF, a & 0xFF, 0]) + data
+            lines.append(":" + (rec + bytes([(-sum(rec)) & 0xFF])).hex().upper())
+        lines.append(":00000001FF")
+    else:
+        name = g.get("name", "HDR").encode()
+        h = bytes([len(name) + 3, 0, 0]) + name
+        lines.append("S0" + (h + bytes([(~sum(h)) & 0xFF])).hex().upper())
+        for a in range(0, len(fw), n):
+            data = fw[a : a + n]
+            rec = bytes([len(data) + 3, (a >> 8) & 0xFF, a & 0xFF]) + data
+            lines.append("S1" + (rec + bytes([(~sum(rec)) & 0xFF])).hex().upper())
+        e = bytes([3, 0, 0])
+        lines.append("S9" + (e + bytes([(~sum(e)) & 0xFF])).hex().upper())
+    return (eol.join(lines) + eol).encode()
+
+
 def synth_fat(n=1):
     out = b"\xca\xfe\xba\xbe" + struct.pack(">I", n)
     for k in range(n):
